@@ -462,28 +462,93 @@ func c17Admission(c *Ctx) {
 	}
 	r.Check(okPick, "C17/ADMISSION", "pickFirstSupportedTransport returns only supported transports", p.Pos(pick.Pos()), "every non-nil return is dominated by isTransportSupported(...) == true", "a transport can be picked without passing isTransportSupported")
 	onlyCaller(c, "C17/ADMISSION", sup, []*ssa.Function{pick})
-	// isTransportSupported: must return false on the two refusal edges
-	// extract: every `return true` must be unreachable when (secure && !tls) or (udp && tls && !secure);
-	// structurally: there are returns of false dominated by a condition mentioning isSecure(...) and one mentioning the TLS config
-	nFalse := 0
-	mentionsSecure, mentionsTLS := false, false
-	for _, ret := range core.Returns(sup) {
-		v, ok := boolConst(ret.Results[0])
-		if !ok || v {
-			continue
+	// isTransportSupported as a boolean function of the atoms S = isSecure(profile), T = TLSConfig != nil,
+	// U = protocol == UDP: enumerate every path to `return true` with the literals it fixes; the two
+	// refusals hold iff every such path contains (not S or T) and (not U or S or not T).
+	atom := func(v ssa.Value) (string, bool, bool) { // name, polarity-of-true, ok
+		switch x := v.(type) {
+		case *ssa.Call:
+			if f := x.Call.StaticCallee(); f != nil && f.Name() == "isSecure" {
+				return "S", true, true
+			}
+		case *ssa.BinOp:
+			if x.Op == token.EQL || x.Op == token.NEQ {
+				if isNilConst(x.Y) && strings.HasSuffix(core.PathOf(x.X), ".TLSConfig") {
+					return "T", x.Op == token.NEQ, true
+				}
+				if strings.HasSuffix(core.PathOf(x.X), ".Protocol") {
+					if k, ok := x.Y.(*ssa.Const); ok && k.Value != nil && k.Value.ExactString() == "0" {
+						return "U", x.Op == token.EQL, true
+					}
+				}
+			}
 		}
-		nFalse++
-		for _, cd := range core.Conds(ret.Block()) {
-			s := condString(cd.V, 0)
-			if strings.Contains(s, "isSecure") {
-				mentionsSecure = true
+		return "", false, false
+	}
+	type lits map[string]bool
+	nPaths, badPaths := 0, []string{}
+	var walk func(b *ssa.BasicBlock, l lits, seen map[*ssa.BasicBlock]bool, trail []int)
+	walk = func(b *ssa.BasicBlock, l lits, seen map[*ssa.BasicBlock]bool, trail []int) {
+		if seen[b] || nPaths > 5000 {
+			return
+		}
+		seen[b] = true
+		defer delete(seen, b)
+		trail = append(trail, b.Index)
+		last := b.Instrs[len(b.Instrs)-1]
+		if ret, ok := last.(*ssa.Return); ok {
+			v, isB := boolConst(ret.Results[0])
+			if isB && !v {
+				return
 			}
-			if strings.Contains(s, "TLSConfig") {
-				mentionsTLS = true
+			nPaths++
+			sVal, sKnown := l["S"]
+			tVal, tKnown := l["T"]
+			uVal, uKnown := l["U"]
+			ok1 := sKnown && !sVal || tKnown && tVal
+			ok2 := uKnown && !uVal || sKnown && sVal || tKnown && !tVal
+			if !isB {
+				ok1, ok2 = false, false
 			}
+			if !ok1 {
+				badPaths = append(badPaths, fmt.Sprintf("a secure profile without TLS is accepted on %v", trail))
+			}
+			if !ok2 {
+				badPaths = append(badPaths, fmt.Sprintf("plain UDP with TLS is accepted on %v", trail))
+			}
+			return
+		}
+		iff, ok := last.(*ssa.If)
+		if !ok {
+			for _, s := range b.Succs {
+				walk(s, l, seen, trail)
+			}
+			return
+		}
+		name, pol, isAtom := atom(iff.Cond)
+		for i, s := range b.Succs {
+			nl := l
+			if isAtom {
+				val := pol == (i == 0)
+				if old, known := l[name]; known && old != val {
+					continue // contradictory
+				}
+				nl = lits{}
+				for k, v := range l {
+					nl[k] = v
+				}
+				nl[name] = val
+			}
+			walk(s, nl, seen, trail)
 		}
 	}
-	r.Check(nFalse >= 2 && mentionsSecure && mentionsTLS, "C17/ADMISSION", "isTransportSupported refusal edges", p.Pos(sup.Pos()), fmt.Sprintf("%d refusing returns, conditioned on isSecure(profile) and on the TLS configuration", nFalse), "the refusals for 'secure profile without TLS' / 'plain UDP with TLS' are gone")
+	walk(sup.Blocks[0], lits{}, map[*ssa.BasicBlock]bool{}, nil)
+	sort.Strings(badPaths)
+	badPaths = uniqStr(badPaths)
+	if len(badPaths) > 3 {
+		badPaths = badPaths[:3]
+	}
+	r.Check(nPaths > 0 && len(badPaths) == 0, "C17/ADMISSION", "isTransportSupported refuses SAVP without TLS and plain UDP with TLS", p.Pos(sup.Pos()), fmt.Sprintf("%d accepting paths, each fixes (profile not secure or TLS on) and (not UDP or secure or TLS off)", nPaths), strings.Join(badPaths, "; "))
 }
 
 // condString renders a condition for coarse matching.
@@ -585,6 +650,7 @@ func init() {
 		c17DecryptBeforeParse(c)
 		c17Admission(c)
 		c17NoDowngrade(c)
+		c17CtxLock(c)
 	}
 	Registry["C18"] = func(c *Ctx) {
 		c.R.NotDecided = append(c.R.NotDecided, "that SRTP/SRTCP add exactly srtpOverhead/srtcpOverhead bytes (trusted from pion/srtp; an MKI, when configured, adds bytes this constant does not count)")
@@ -929,4 +995,58 @@ func c18Start(c *Ctx) {
 func reachesOnlyThrough(fn *ssa.Function, via *ssa.If, to ssa.Instruction) bool {
 	found, _, _ := core.PathAvoiding(fn, nil, func(x ssa.Instruction) bool { return x == to }, func(x ssa.Instruction) bool { return x == ssa.Instruction(via) })
 	return !found
+}
+
+// c17CtxLock: pion's srtp.Context is not safe for concurrent use; the
+// encrypting entry points of one context are reached from several goroutines
+// (one per format writer, plus the RTCP report goroutines).
+func c17CtxLock(c *Ctx) {
+	p, r := c.P, c.R
+	r.Rule("C17/SRTP-CTX-LOCK", "every call that encrypts or reads the roll-over counter through wrappedSRTPContext.w holds the context's mutex: exclusively for EncryptRTP / EncryptRTCP (they mutate the shared cipher state), at least shared for ROC", 3)
+	wF := p.Field("", "wrappedSRTPContext", "w")
+	if !r.Anchor("C17/SRTP-CTX-LOCK", "wrappedSRTPContext.w", wF != nil) {
+		return
+	}
+	n := 0
+	for _, fn := range p.SrcFuncs() {
+		var states map[ssa.Instruction]core.LockSet
+		for _, b := range fn.Blocks {
+			for _, in := range b.Instrs {
+				ci, ok := in.(*ssa.Call)
+				if !ok || ci.Call.StaticCallee() == nil || len(ci.Call.Args) == 0 {
+					continue
+				}
+				cal := ci.Call.StaticCallee()
+				if cal.Pkg == nil || cal.Pkg.Pkg.Path() != "github.com/pion/srtp/v3" {
+					continue
+				}
+				name := cal.Name()
+				if name != "EncryptRTP" && name != "EncryptRTCP" && name != "ROC" && name != "SetROC" {
+					continue
+				}
+				u, ok := ci.Call.Args[0].(*ssa.UnOp)
+				if !ok {
+					continue
+				}
+				fa, ok := u.X.(*ssa.FieldAddr)
+				if !ok || core.FieldOfAddr(fa) != wF {
+					continue
+				}
+				if fn.Name() == "initialize" {
+					continue // object not yet shared
+				}
+				n++
+				if states == nil {
+					states = core.LockStates(fn, core.LockSet{})
+				}
+				need := core.PathOf(fa.X) + ".mutex"
+				excl := name != "ROC"
+				r.Check(states[in].Holds(need, excl), "C17/SRTP-CTX-LOCK", fmt.Sprintf("%s calls srtp.Context.%s", fnShort(fn), name), p.Pos(ci.Pos()), "mutex held ("+states[in].String()+")",
+					fmt.Sprintf("%s on the shared SRTP context with %s held, needs %s %s: concurrent writers of two formats of one media corrupt the cipher state (packets fail authentication, or the process panics)", name, states[in], need, map[bool]string{true: "exclusively", false: "at least shared"}[excl]))
+			}
+		}
+	}
+	if n == 0 {
+		r.Fail("C17/SRTP-CTX-LOCK", "calls into srtp.Context", "", "none found")
+	}
 }
